@@ -312,3 +312,20 @@ _check_before_target = check
 def check(ctx, run):  # noqa: F811
     _check_before_target(ctx, run)
     target_rule(ctx, run)
+    bisect_dependency(ctx, run)
+
+
+def bisect_dependency(ctx, run):
+    """R2 (search engine): the default search is only as good as bisect: its bracket invariant, orientation handling and bound (C19.R1-R3)
+    are obligations of this property too - a bisect that walks the wrong way returns a bracket end as the 'certainty equivalent'."""
+    from ..report import Run
+    from . import c19
+    sub = Run("C19", run.tier, "other", "")
+    c19.check(ctx, sub)
+    run.require("C06.R2b", 3)
+    for r, inst, ok, detail in sub.obligations:
+        if r in ("C19.R1", "C19.R2", "C19.R3"):
+            run.oblige("C06.R2b", f"[{r}] {inst}", ok, detail)
+    for f in sub.findings:
+        if f.rule in ("C19.R1", "C19.R2", "C19.R3"):
+            run.fail(Finding("C06.R2b", f.function, f"[{f.rule}] {f.construct}", "the default certainty-equivalent search relies on bisect: " + f.message, file=f.file, line=f.line, case=f.case))
